@@ -117,6 +117,7 @@ type Sys struct {
 	rich    bool           // alphabet includes the full hint shape list (C05/C07)
 	hist    []Op
 	dead    bool // a panic escaped the allocator: the instance is not used any further
+	broken  bool
 }
 
 func NewSys(r *ev.Run, id string, p Pool, foreign, rich bool) *Sys {
@@ -154,7 +155,7 @@ func (s *Sys) mkOp(kind string, ip net.IP, mask net.IPMask, note string) Op {
 // Ops builds the alphabet for the current state.
 func (s *Sys) Ops() []Op {
 	g := s.g
-	if s.dead {
+	if s.dead || s.broken {
 		return nil
 	}
 	var ops []Op
@@ -189,6 +190,11 @@ func (s *Sys) Ops() []Op {
 				ops = append(ops, s.mkOp("alloc", last, full(128), fmt.Sprintf("hint last address of block %d /128", i)))
 				if g.page < 128 {
 					ops = append(ops, s.mkOp("alloc", g.ipBytes(new(big.Int).Add(b, big.NewInt(1))), full(g.page+1), fmt.Sprintf("hint base+1 of block %d /page+1", i)))
+				}
+				if g.page >= 4 {
+					// address inside the block, length shorter than the allocation length
+					ops = append(ops, s.mkOp("alloc", last, full(g.page-4), fmt.Sprintf("hint inside block %d with a /page-4 length", i)))
+					ops = append(ops, s.mkOp("alloc", ip, full(g.page-1), fmt.Sprintf("hint block %d base with a /page-1 length", i)))
 				}
 				ops = append(ops, s.mkOp("alloc", ip, nil, fmt.Sprintf("hint block %d nil mask", i)))
 				ops = append(ops, s.mkOp("alloc", ip, net.CIDRMask(32, 32), fmt.Sprintf("hint block %d 32-bit-wide mask", i)))
@@ -267,6 +273,9 @@ func (s *Sys) Key() string {
 	if s.dead {
 		return "dead-after-panic"
 	}
+	if s.broken {
+		return "property-violated (terminal)"
+	}
 	h := make([]int64, 0, len(s.held))
 	for i := range s.held {
 		h = append(h, i)
@@ -284,6 +293,9 @@ func (s *Sys) violate(prop, sig, what string) {
 	if prop != s.id {
 		return // each property reports only its own clauses
 	}
+	// a state in which the property is already violated is not explored further: broken
+	// states can have unboundedly many successors (e.g. a bitmap that grows past the pool)
+	s.broken = true
 	fam := "ipv6"
 	if s.g.width == 32 {
 		fam = "ipv4"
@@ -461,11 +473,9 @@ func hintNames(g geom, h net.IPNet) bool {
 	if g.width == 32 {
 		return true
 	}
-	if len(h.IP) != 16 {
-		return false
-	}
-	l, b := h.Mask.Size()
-	return b != 128 || l >= g.page
+	// any 16-byte address inside the pool names the block that contains it, whatever the
+	// length that comes with it (the length only influences the size of the result)
+	return len(h.IP) == 16
 }
 
 func freeClass(g geom, n net.IPNet, tgt int64) string {
